@@ -663,6 +663,10 @@ use fastrace::collector::Reporter;
 pub struct Plan {
     pub items: Vec<(u8, u16)>,
     pub straddle: i8,
+    /// how the records are spread over traces: 0 = every record its own trace; k >= 1 = k traces
+    /// whose records are interleaved (what a collector cycle with several live traces hands over)
+    #[serde(default)]
+    pub traces: u8,
 }
 
 pub const SERVICE: &str = "verif-svc";
@@ -707,7 +711,7 @@ pub fn realise(plan: &Plan) -> Vec<Rec> {
     for (i, (kind, fine)) in plan.items.iter().enumerate() {
         let mut r = Rec {
             trace_hi: 7,
-            trace_lo: i as u64 + 1,
+            trace_lo: if plan.traces == 0 { i as u64 + 1 } else { 1 + (i as u64 * 7 + (*fine as u64 >> 9)) % plan.traces as u64 },
             // span ids repeat across traces (one span recorded under parents in several traces is
             // reported once per trace with the same span id): every 8th record shares the id of
             // the record before it
@@ -1023,7 +1027,7 @@ pub fn plan_from_bytes(b: &[u8]) -> Plan {
     if items.is_empty() {
         items.push((0, 0));
     }
-    Plan { items, straddle: b.first().map(|x| (*x as i8) / 6).unwrap_or(0) }
+    Plan { items, straddle: b.first().map(|x| (*x as i8) / 6).unwrap_or(0), traces: b.first().map(|x| (*x % 6).saturating_sub(2)).unwrap_or(0) }
 }
 
 
